@@ -281,7 +281,10 @@ theorem startLoop_inv2 (c : Crypto G) (env : Env) (hb : env.bindsHash = true) (s
     unfold startLoop
     have hu := update_inv2 c env hb sh gs hl st m h
     simp only []
-    split; · exact hu
+    split
+    · split
+      · exact ih _ hu
+      · exact hu
     split; · exact hu
     exact ih _ hu
 
@@ -296,10 +299,15 @@ theorem startLoop_fields (c : Crypto G) (env : Env) (ms : List (VMsg G)) :
     have hf := update_fields c env st m
     unfold startLoop
     simp only []
-    split; · exact ⟨hf.1, hf.2.1, hf.2.2.1, hf.2.2.2.1⟩
-    split; · exact ⟨hf.1, hf.2.1, hf.2.2.1, hf.2.2.2.1⟩
     have := ih (update c env st m).st
-    exact ⟨this.1.trans hf.1, this.2.1.trans hf.2.1, this.2.2.1.trans hf.2.2.1, this.2.2.2.trans hf.2.2.2.1⟩
+    have hgo := (⟨this.1.trans hf.1, this.2.1.trans hf.2.1, this.2.2.1.trans hf.2.2.1, this.2.2.2.trans hf.2.2.2.1⟩ :
+      _ ∧ _ ∧ _ ∧ _)
+    split
+    · split
+      · exact hgo
+      · exact ⟨hf.1, hf.2.1, hf.2.2.1, hf.2.2.2.1⟩
+    split; · exact ⟨hf.1, hf.2.1, hf.2.2.1, hf.2.2.2.1⟩
+    exact hgo
 
 theorem startLoop_err_false (c : Crypto G) (env : Env) (hex : env.blockExists = false) (ms : List (VMsg G)) :
     ∀ st : RState G, (startLoop c env st ms).2.1 = false := by
@@ -309,7 +317,10 @@ theorem startLoop_err_false (c : Crypto G) (env : Env) (hex : env.blockExists = 
     intro st
     unfold startLoop
     simp only []
-    split; · rfl
+    split
+    · split
+      · exact ih _
+      · rfl
     split
     · rename_i h; rw [update_err_false c env st m hex] at h; exact absurd h (by decide)
     · exact ih _
@@ -641,29 +652,30 @@ theorem inv2_fresh (c : Crypto G) (env : Env) (gs : Data → G) (hk : 0 < groupK
 
 theorem start1_spec (c : Crypto G) (env : Env) (hb : env.bindsHash = true) (hex : env.blockExists = false)
     (hk : 0 < groupK env.groupSize) (sh : Id → Data → G) (gs : Data → G) (hl : Lawful c env sh gs)
-    (future : List (VMsg G)) :
-    ∃ rs pn, start1 c env (RState.init [] future) = (rs, false, pn) ∧ Inv2 c env gs rs ∧ rs.finished = false ∧
-      (∀ mid, (mid ∈ rs.processed ∨ mid ∈ rs.future.map (·.mid)) → mid ∈ future.map (·.mid)) := by
-  have h0 := inv2_fresh c env gs hk (RState.init [] future : RState G) rfl
+    (processed : List MsgId) (future : List (VMsg G)) :
+    ∃ rs pn, start1 c env (RState.init processed future) = (rs, false, pn) ∧ Inv2 c env gs rs ∧ rs.finished = false ∧
+      (∀ mid, (mid ∈ rs.processed ∨ mid ∈ rs.future.map (·.mid)) → mid ∈ processed ++ future.map (·.mid)) := by
+  have h0 := inv2_fresh c env gs hk (RState.init processed future : RState G) rfl
   unfold start1
   rw [if_neg (by simp [RState.init])]
   simp only []
   by_cases hemp : future.isEmpty = true
-  · have : (RState.init [] future : RState G).future.isEmpty = true := hemp
+  · have : (RState.init processed future : RState G).future.isEmpty = true := hemp
     rw [if_pos this]
     refine ⟨_, false, rfl, h0, rfl, ?_⟩
     intro mid hm
-    simpa [RState.init] using hm
-  · have : ¬ (RState.init [] future : RState G).future.isEmpty = true := hemp
+    simp only [RState.init, List.mem_append] at hm ⊢
+    exact hm
+  · have : ¬ (RState.init processed future : RState G).future.isEmpty = true := hemp
     rw [if_neg this]
-    have hl2 := startLoop_inv2 c env hb sh gs hl (RState.init [] future : RState G).future _ h0
-    have hfl := startLoop_fields c env (RState.init [] future : RState G).future
-      ({ (RState.init [] future : RState G) with gSign := Gen.new (groupK env.groupSize), rSign := Gen.new (groupK env.groupSize) })
-    have herr := startLoop_err_false c env hex (RState.init [] future : RState G).future
-      ({ (RState.init [] future : RState G) with gSign := Gen.new (groupK env.groupSize), rSign := Gen.new (groupK env.groupSize) })
+    have hl2 := startLoop_inv2 c env hb sh gs hl (RState.init processed future : RState G).future _ h0
+    have hfl := startLoop_fields c env (RState.init processed future : RState G).future
+      ({ (RState.init processed future : RState G) with gSign := Gen.new (groupK env.groupSize), rSign := Gen.new (groupK env.groupSize) })
+    have herr := startLoop_err_false c env hex (RState.init processed future : RState G).future
+      ({ (RState.init processed future : RState G) with gSign := Gen.new (groupK env.groupSize), rSign := Gen.new (groupK env.groupSize) })
     generalize startLoop c env
-      ({ (RState.init [] future : RState G) with gSign := Gen.new (groupK env.groupSize), rSign := Gen.new (groupK env.groupSize) })
-      (RState.init [] future : RState G).future = r at hl2 hfl herr ⊢
+      ({ (RState.init processed future : RState G) with gSign := Gen.new (groupK env.groupSize), rSign := Gen.new (groupK env.groupSize) })
+      (RState.init processed future : RState G).future = r at hl2 hfl herr ⊢
     obtain ⟨rs, e, pn⟩ := r
     simp only at hl2 hfl herr
     subst herr
@@ -671,21 +683,21 @@ theorem start1_spec (c : Crypto G) (env : Env) (hb : env.bindsHash = true) (hex 
     · simp only [Bool.or_false, Bool.false_eq_true, if_false]
       refine ⟨_, false, rfl, ⟨⟨hl2.inv.g, hl2.inv.r⟩, hl2.thr_g, hl2.thr_r, hl2.ids_eq, hl2.open_, hl2.closed⟩, hfl.1, ?_⟩
       intro mid hm
-      simp only [hfl.2.1, RState.init, List.nil_append, List.map_nil, List.not_mem_nil, or_false] at hm
+      simp only [hfl.2.1, RState.init, List.map_nil, List.not_mem_nil, or_false, List.mem_append] at hm ⊢
       exact hm
     · simp only [Bool.or_true, if_true]
       refine ⟨_, true, rfl, hl2, hfl.1, ?_⟩
       intro mid hm
-      simp only [hfl.2.1, hfl.2.2.1, RState.init, List.not_mem_nil, false_or] at hm
+      simp only [hfl.2.1, hfl.2.2.1, RState.init, List.mem_append] at hm ⊢
       exact hm
 
-theorem init_state (c : Crypto G) (env : Env) (hb : env.bindsHash = true) (hex : env.blockExists = false)
+theorem initWith_state (c : Crypto G) (env : Env) (hb : env.bindsHash = true) (hex : env.blockExists = false)
     (hk : 0 < groupK env.groupSize) (sh : Id → Data → G) (gs : Data → G) (hl : Lawful c env sh gs)
-    (future : List (VMsg G)) :
-    Collecting c env gs (future.map (·.mid)) (Proc.init c env future) ∨
-    Finished env gs (Proc.init c env future) ∨ Ready c env gs (Proc.init c env future) := by
-  obtain ⟨rs, pn, hs, hinv, hfin, hblk⟩ := start1_spec c env hb hex hk sh gs hl future
-  simp only [Proc.init, enter, hs]
+    (processed : List MsgId) (future : List (VMsg G)) :
+    Collecting c env gs (processed ++ future.map (·.mid)) (Proc.initWith c env processed future) ∨
+    Finished env gs (Proc.initWith c env processed future) ∨ Ready c env gs (Proc.initWith c env processed future) := by
+  obtain ⟨rs, pn, hs, hinv, hfin, hblk⟩ := start1_spec c env hb hex hk sh gs hl processed future
+  simp only [Proc.initWith, enter, hs]
   cases pn
   · simp only [Bool.false_eq_true, if_false]
     cases hcp : rs.canProcessed
@@ -699,6 +711,14 @@ theorem init_state (c : Crypto G) (env : Env) (hb : env.bindsHash = true) (hex :
     cases hcp : rs.canProcessed
     · exact Or.inl ⟨rfl, rfl, rfl, rfl, rfl, hcp, hfin, hinv, hblk⟩
     · exact Or.inr (Or.inr ⟨rfl, rfl, rfl, rfl, rfl, hcp, hfin, hinv⟩)
+
+theorem init_state (c : Crypto G) (env : Env) (hb : env.bindsHash = true) (hex : env.blockExists = false)
+    (hk : 0 < groupK env.groupSize) (sh : Id → Data → G) (gs : Data → G) (hl : Lawful c env sh gs)
+    (future : List (VMsg G)) :
+    Collecting c env gs (future.map (·.mid)) (Proc.init c env future) ∨
+    Finished env gs (Proc.init c env future) ∨ Ready c env gs (Proc.init c env future) := by
+  have := initWith_state c env hb hex hk sh gs hl [] future
+  simpa [Proc.init, Proc.initWith] using this
 
 /-! ### whole histories (block not on the chain) -/
 
